@@ -30,7 +30,13 @@ are three sufficient conditions under which threads cannot disturb each other th
   H9b populate-once state is published atomically (one write statement or under a lock);
   H12 a temporary patch of a shared object (save / set / restore) runs under a lock;
   H13 no function sets a module-level name AROUND a computation that reads it (save / set / compute / restore, or a context manager
-      setting it for its with-body) without a lock: such a name is a dynamically scoped parameter shared by all threads.
+      setting it for its with-body) without a lock: such a name is a dynamically scoped parameter shared by all threads
+      (round 5: only readers that run AFTER a rebinding statement count -- the right-hand side of the rebinding is evaluated before it);
+  H14 (round 5) a mutated module-level object that is neither a guarded keyed cache / registry nor configuration is working memory
+      shared by all threads (scratch buffers such as `[0] * 16`, "current document" slots): `unknown`, the schedule replayer decides.
+Round 5 also: the with-body of the char-map patcher must not suspend (`yield` / `await` inside `with <patcher>()` keeps the patch
+installed for as long as the consumer likes -- replayed by histories in which the caller keeps the raised exception); memo obligations
+are one per STATE (all store sites together), so splitting / merging store sites does not change the obligation set.
 A failed condition is `unknown` until the native replayer exhibits a schedule: two threads under a controlled scheduler
 (sys.settrace), one preemption at every line of the functions that touch the state (H9, H10), or two context switches at every
 pair of lines of the patching context manager (H12).  H9a and H9b were repaired in /repo (fix: commits); H12 still fails on
